@@ -373,51 +373,3 @@ fn c03_label_text_roundtrip_2() {
     label_text_roundtrip::<2, 10>()
 }
 
-// ------------------------------------------------ length limit when parsing
-use domain::base::name::{ParsedName, ToLabelIter};
-use octseq::parse::Parser;
-
-// @funcs: ParsedName::parse_ref, LabelType::parse, Parser::{parse_u8,advance,seek}, ParsedName::compose_len/is_compressed
-// @bound: a message of 262 octets: a root label at offset 0, then at offset 1 a name of exactly four labels with symbolic lengths 1..=63 each (arbitrary content) terminated by either a root label or a compression pointer to the root at offset 0: accepted <=> total length (labels + root) <= 255
-// @assume: four labels, terminator in {root, pointer to offset 0}
-// @stub: core::slice::index::slice_index_fail -> panic without formatted message
-// @outside: names with other label counts near the limit; pointer targets other than a root label
-#[kani::proof]
-#[kani::unwind(7)]
-#[kani::stub(core::slice::index::slice_index_fail, crate::stubs::slice_index_fail)]
-fn c03_parsed_name_length_limit() {
-    let mut buf: [u8; 262] = kani::any();
-    buf[0] = 0;
-    let mut pos = 1usize;
-    let mut total = 0usize;
-    let mut i = 0;
-    while i < 4 {
-        let l: usize = kani::any();
-        kani::assume(l >= 1 && l <= 63);
-        buf[pos] = l as u8;
-        pos += l + 1;
-        total += l + 1;
-        i += 1;
-    }
-    let ptr: bool = kani::any();
-    if ptr {
-        buf[pos] = 0xC0;
-        buf[pos + 1] = 0;
-    } else {
-        buf[pos] = 0;
-    }
-    total += 1;
-    let mut p = Parser::from_ref(&buf[..]);
-    p.seek(1).unwrap();
-    match ParsedName::parse_ref(&mut p) {
-        Ok(n) => {
-            assert!(total <= 255);
-            assert!(n.compose_len() as usize == total);
-            assert!(n.is_compressed() == ptr);
-            assert!(p.pos() == pos + if ptr { 2 } else { 1 });
-        }
-        Err(_) => assert!(total > 255),
-    }
-    kani::cover!(total == 255 && ptr, "maximal compressed name");
-    kani::cover!(total == 256, "one octet too long");
-}
